@@ -1227,3 +1227,114 @@ func runR167(c *core.Ctx) {
 		fmt.Sprintf("ComplexKey is case %d, SimpleKey is case %d", pos[ck], pos[sk]),
 		fmt.Sprintf("type switches=%d, ComplexKey is case %d, SimpleKey is case %d: a complex key is treated as a simple key and compared including $params", n, pos[ck], pos[sk]))
 }
+
+func init() {
+	core.Register(&core.Rule{
+		ID:    "R06.7",
+		Title: "only the outermost record is at input start",
+		Text: "Every implementation of rawReader.atInputStart is either position-based (compares the cursor with 0 / asks the lexer, so it turns false as soon as anything is consumed) or flag-based; " +
+			"for a flag-based reader every call of the element callback in its ReadMap and ReadArray is dominated by an assignment of false to the flag. " +
+			"Otherwise a nested record believes it is the outermost one, raises the missing-fields error as soon as it ends, and the fields after it are neither decoded nor reported.",
+		Props: []string{"C06"},
+		Floor: map[string]int{"v2": 4, "root": 4},
+		Run:   runR067,
+	})
+}
+
+func runR067(c *core.Ctx) {
+	const rel = "restlicodec"
+	inf := info(c, rel)
+	n := 0
+	for _, fd := range c.M.FuncDecls(rel) {
+		if fd.Body == nil || fd.Recv == nil || fd.Name.Name != "atInputStart" {
+			continue
+		}
+		n++
+		name := core.DeclName(fd)
+		recv := recvObj(inf, fd)
+		// shape of the single return
+		rets := core.ReturnsIn(fd.Body)
+		if len(rets) != 1 || len(rets[0].Results) != 1 {
+			c.Unknown(rel, name, "atInputStart has a recognised shape", fd.Pos(), "not a single return expression")
+			continue
+		}
+		res := core.Unparen(rets[0].Results[0])
+		var flag *types.Var
+		switch x := res.(type) {
+		case *ast.BinaryExpr:
+			if v := core.ConstOf(inf, x.Y); x.Op == token.EQL && v != nil && v.ExactString() == "0" {
+				c.OK(rel, name, "atInputStart is position-based", fd.Pos(), core.ExprString(res))
+				continue
+			}
+		case *ast.CallExpr:
+			if f := core.Callee(inf, x); f != nil && f.Name() == "IsStart" {
+				c.OK(rel, name, "atInputStart is position-based", fd.Pos(), core.ExprString(res))
+				continue
+			}
+			if f := core.Callee(inf, x); f != nil && f.Name() == "atInputStart" {
+				c.OK(rel, name, "atInputStart delegates to the embedded reader", fd.Pos(), core.ExprString(res))
+				continue
+			}
+		case *ast.SelectorExpr:
+			if fv, ok := core.ObjOf(inf, x).(*types.Var); ok && fv.IsField() && rootIdent(x) != nil && inf.Uses[rootIdent(x)] == recv {
+				flag = fv
+			}
+		case *ast.Ident:
+			if v := core.ConstOf(inf, x); v != nil {
+				c.OK(rel, name, "atInputStart is constant", fd.Pos(), core.ExprString(res))
+				continue
+			}
+		}
+		if flag == nil {
+			c.Unknown(rel, name, "atInputStart has a recognised shape", fd.Pos(), "returns "+core.ExprString(res))
+			continue
+		}
+		// flag-based: ReadMap / ReadArray of the same receiver type
+		rt := strings.TrimSuffix(strings.TrimPrefix(name, "("), ").atInputStart")
+		for _, m := range []string{"ReadMap", "ReadArray"} {
+			mf := c.M.LookupFunc(rel, "("+rt+")."+m)
+			if mf == nil {
+				c.Unknown(rel, "("+rt+")."+m, "flag-based reader has the method", fd.Pos(), "not found")
+				continue
+			}
+			md := c.M.Decl(mf)
+			var cb types.Object
+			if md.Type.Params != nil && len(md.Type.Params.List) == 1 && len(md.Type.Params.List[0].Names) == 1 {
+				cb = inf.Defs[md.Type.Params.List[0].Names[0]]
+			}
+			calls, bad := 0, 0
+			core.NewFlow(c.M, inf, md.Body).Run(&core.Automaton{
+				Init: 0,
+				Node: func(st int, node ast.Node) int {
+					// calls of the callback in this node (evaluated before an assignment in the same statement takes effect)
+					core.WalkNoFuncLit(node, func(y ast.Node) bool {
+						if call, ok := y.(*ast.CallExpr); ok && core.ObjOf(inf, call.Fun) == cb && cb != nil {
+							calls++
+							if st != 1 {
+								bad++
+							}
+						}
+						return true
+					})
+					if as, ok := node.(*ast.AssignStmt); ok && len(as.Lhs) == len(as.Rhs) {
+						for i, l := range as.Lhs {
+							if sel, ok := core.Unparen(l).(*ast.SelectorExpr); ok && core.ObjOf(inf, sel) == flag {
+								if v := core.ConstOf(inf, as.Rhs[i]); v != nil && v.ExactString() == "false" {
+									st = 1
+								} else {
+									st = 0
+								}
+							}
+						}
+					}
+					return st
+				},
+			})
+			c.Check(calls > 0 && bad == 0, rel, "("+rt+")."+m, "the element callback runs with "+flag.Name()+" == false", md.Pos(), fmt.Sprintf("%d callback evaluations", calls),
+				fmt.Sprintf("%d of %d evaluations of the callback are reachable without %s having been set to false: nested records report missing fields on their own", bad, calls, flag.Name()))
+		}
+	}
+	if n < 3 {
+		c.Unknown(rel, "-", "atInputStart implementations", token.NoPos, fmt.Sprintf("found %d", n))
+	}
+}
